@@ -216,6 +216,19 @@ func NewPool(kt string, code uint, variant string) *Pool {
 	upd("U23", "u2", c("u3"), svc("u23"), nil, nil, "legit", "")
 	upd("U1b2", "u1b", c("u2"), svc("u1b2"), nil, nil, "legit", "")
 	upd("U01~p", "u0", c("u1"), failingPatch, nil, setDelta(sidetree.DeltaApplyFails), "legit", "")
+	// an update whose delta adds two keys and then re-adds the FIRST one with other purposes (replace in place, no second entry) and
+	// removes more ids than there are keys (absent ids are ignored)
+	{
+		dk1, dk2 := NewKey(P256, "pool/dk1"), NewKey(P256, "pool/dk2")
+		addKeys := func(es ...interface{}) interface{} {
+			return map[string]interface{}{"action": "add-public-keys", "publicKeys": es}
+		}
+		upd("U01k", "u0", c("u1"), []interface{}{
+			addKeys(KeyEntry("dk1", dk1, []interface{}{"authentication"}), KeyEntry("dk2", dk2, []interface{}{"assertionMethod"})),
+			addKeys(KeyEntry("dk1", dk2, []interface{}{"keyAgreement"})),
+			map[string]interface{}{"action": "remove-public-keys", "ids": []interface{}{"dk9", "dk8", "dk7"}},
+		}, nil, nil, "legit", "")
+	}
 	upd("U01~w", "u0", c("u1"), svc("u01w"), late, nil, "legit", "")
 	upd("U01~h", "u0", c("u1"), svc("u01h"), hashMismatch, setDelta(sidetree.DeltaHashMismatch), "legit", "")
 	upd("U01~v", "u0", c("u1"), invalidPatch, nil, setDelta(sidetree.DeltaInvalid), "legit", "")
